@@ -13,7 +13,11 @@ class Ctx:
         self.parser = parser
         self.W = L
         self.timeout = timeout
-        self.lx = lxc.Lexer(parser.lex)
+        import json
+        import os
+        ref = json.load(open(os.path.join(os.path.dirname(os.path.dirname(os.path.abspath(__file__))), "spec", "grammar_ref.json")))["lexer"]
+        self.ref = ref
+        self.lx = lxc.Lexer(parser.lex, reference=ref)
         self.rule = {name: i for i, (name, _, _) in enumerate(self.lx.rules)}
         self.word = {i for i, (_, rep, _) in enumerate(self.lx.classes) if re.fullmatch(r'\w', rep)}
 
@@ -204,7 +208,46 @@ def q_crlf(cx, excludes):
     return _finish([t, t2], t.or_(goals), cx.timeout, "CR LF is not equivalent to LF")
 
 
-QUERIES = {"linefeeds": q_linefeeds, "names": q_names, "blank": q_blank, "crlf": q_crlf}
+def q_reference(cx, excludes):
+    """the lexer rules of the checked tree tokenise every text exactly like the published token definitions
+    (spec/grammar_ref.json): same ignored characters, same rule and same extent at every lexer position, same illegal characters"""
+    a = lxc.TextChart(cx.lx, cx.W, 'a')
+    b = lxc.TextChart(cx.lx, cx.W, 'b', chars=a.c, use_reference=True)
+    names_a = [r[0] for r in a.rules]
+    names_b = [r[0] for r in b.rules]
+    diffs = []
+    for k in range(cx.W):
+        both = a.and_(a.at(k), b.at(k))
+        if both is None:
+            continue
+        here = []
+        here.append(z3.Xor(_b(a.in_classes(k, a.ign)), _b(b.in_classes(k, b.ign))))
+        ends = set()
+        for ri in range(len(a.rules)):
+            ends |= set(a.ends(k, ri))
+        for ri in range(len(b.rules)):
+            ends |= set(b.ends(k, ri))
+        for name in sorted(set(names_a) | set(names_b)):
+            for e in sorted(ends):
+                ta = a.or_([a.tok(k, ri, e) for ri, n in enumerate(names_a) if n == name])
+                tb = b.or_([b.tok(k, ri, e) for ri, n in enumerate(names_b) if n == name])
+                if ta is None and tb is None:
+                    continue
+                here.append(z3.Xor(_b(ta), _b(tb)))
+        diffs.append(a.and_(both, a.or_(here)))
+    goal = a.or_(diffs)
+    return _finish([a, b], goal, cx.timeout, "tokenisation differs from the published token definitions")
+
+
+def _b(x):
+    if x is None:
+        return z3.BoolVal(False)
+    if x is True:
+        return z3.BoolVal(True)
+    return x
+
+
+QUERIES = {"reference": q_reference, "linefeeds": q_linefeeds, "names": q_names, "blank": q_blank, "crlf": q_crlf}
 
 
 def validate(cx, n=300, seed=0):
@@ -266,6 +309,12 @@ def raw_tokens(parser, text):
     return out
 
 
+def json_ref():
+    import json
+    import os
+    return json.load(open(os.path.join(os.path.dirname(os.path.dirname(os.path.abspath(__file__))), "spec", "grammar_ref.json")))["lexer"]
+
+
 def replay(rec):
     from smartquery import SqParser
     parser = SqParser()
@@ -290,6 +339,22 @@ def replay(rec):
                 elif not re.fullmatch(r'\w+', v) or (b < len(text) and re.fullmatch(r'\w', text[b])):
                     bad.append(v)
         return bool(bad), f"raw tokens of {text!r}: {toks}; offending NAME values {bad}"
+    if q == "reference":
+        import re as _re
+        ref = json_ref()
+        rx = _re.compile(ref["pattern"], ref["flags"])
+        pos, out = 0, []
+        while pos < len(text):
+            if text[pos] in ref["ignore"]:
+                pos += 1
+                continue
+            m = rx.match(text, pos)
+            if m is None:
+                out.append(('ERR', pos, pos))
+                break
+            out.append((ref["groups"][m.lastindex], pos, m.end()))
+            pos = m.end()
+        return toks != out, f"raw tokens of {text!r}: {toks} but the published token definitions give {out}"
     if q in ("blank", "crlf"):
         text2 = cex.get("text2", "")
         toks2 = raw_tokens(parser, text2)
